@@ -30,7 +30,7 @@ func main() {
 		fmt.Fprintln(os.Stderr, "unknown domain", os.Args[1])
 		os.Exit(2)
 	}
-	if err := d(env); err != nil {
+	if err := runGuarded(env, d); err != nil { // crash.go: an application panic becomes a violation
 		fmt.Fprintln(os.Stderr, "harness error:", err)
 		os.Exit(3)
 	}
